@@ -139,6 +139,13 @@ def lookupLoaded (fs : List PlatformFile) (file variant : String) : Option Loade
 instance a caller receives is its own, and whatever the caller does to it (any in-place mutation of
 the level map, the level structs, the failure strings, the step lists) stays with that instance. -/
 
+/-- `loadPlatformDefinition`: the embedded assets first, the caller's file system / URL only when
+no asset has that name -/
+def resolveSource {α : Type} (embedded fileOrURL : String → Option α) (name : String) : Option α :=
+  match embedded name with
+  | some d => some d
+  | none => fileOrURL name
+
 /-- one earlier load: which definition was asked for, and what its holder then did to it -/
 structure LoadEvent where
   file : String
